@@ -54,6 +54,10 @@ KNOWN_ALIAS = ('circuit listed (operations or any acquisition index read) before
                'relation-free sub-circuit with the same repetition count and a measurement outside that sub-circuit')
 
 
+KNOWN_INVERSION = ('implicitly sequenced, overlap-free program in which two measurements of a qubit, neither placed after the other by '
+                   'construction, are listed (relation depth first) against their start-time order')
+
+
 # ----------------------------------------------------------------------------------------- program helpers
 def subs_of(circ):
     return [c for c in circ['cmds'] if c['op'] == 'sub']
@@ -165,9 +169,29 @@ def gen_case(rng):
     raise RuntimeError('generator could not meet the size bounds')
 
 
+def gen_two_branch(rng):
+    """Two relation branches of different depth and length that meet on one measured qubit through barriers: the family in which listing
+    order (relation depth) and start-time order can part (known finding F20); part of the instances are time-ordered."""
+    qm = 0
+    cmds = []
+    slow_first = rng.random() < 0.6
+    n1 = rng.randint(1, 3)
+    for br in (1, 2):
+        if slow_first:      # first branch shallow and long, second deep and short
+            n, ds = (n1, [40, 100, 400]) if br == 1 else (n1 + rng.randint(1, 5), [0, 1, 2, 4])
+        else:
+            n, ds = rng.randint(1, 5), [1, 2, 4, 8, 40, 100, 400]
+        cmds += [{'op': 'Wait', 'q': br, 'd': rng.choice(ds)} for _ in range(n)] + [{'op': 'Barrier', 'q': sorted([qm, br])}]
+        cmds += [{'op': 'M', 'q': qm, 'tag': rng.choice([0, 1, 3, 4]), 'reg': 'own'} for _ in range(rng.randint(1, 2))]
+        if rng.random() < 0.3:
+            cmds.append({'op': 'M', 'q': br, 'tag': 0, 'reg': 'own'})
+    return {'k': 'prog', 'circ': {'rep': rng.choice([1, 1, 2]), 'cmds': cmds}, 'observe_before': rng.random() < 0.3}
+
+
 def gen_cases(rng, tier):
     n = 500 if tier == 'quick' else 5000
     cases = [gen_case(rng) for _ in range(n)]
+    cases += [gen_two_branch(rng) for _ in range(20 if tier == 'quick' else 200)]
     # library-built circuits (repetition code): the start-time clause is claimed for them as well
     libs = [([0, 1], 1), ([0, 1, 0], 3), ([1, 0, 1], 2), ([0, 1, 0], 0)] if tier == 'quick' else \
         [(list(i), c) for i in ([0], [0, 1], [1, 0], [0, 1, 0], [1, 1, 0, 1]) for c in (0, 1, 2, 3, 5)]
@@ -197,6 +221,10 @@ def corpus():
         P([S([M(0), M(1)], rep=2), M(0, 1)], rep=2, before=True),
         P([S([S([M(0)]), M(1)], rep=2), M(0, 1)], before=True),
         P([S([S([M(0)]), M(1)], observe=True), M(0, 1)]),
+        # F20 (known finding): M q0 behind a long wait on q1 (relation depth 2, start 204) is listed before M q0 behind a short chain on q2
+        # (relation depth 5, start 12); no two operations share a channel and overlap
+        P([{'op': 'Wait', 'q': 1, 'd': 400}, {'op': 'Barrier', 'q': [0, 1]}, M(0)] + [{'op': 'Wait', 'q': 2, 'd': 4}] * 4
+          + [{'op': 'Barrier', 'q': [0, 2]}, M(0, 1)]),
     ]
 
 
@@ -396,11 +424,67 @@ def explained_by_alias(o):
     return True
 
 
+# ----------------------------------------------------------------------------------------- known finding F20
+def indices_exact(a):
+    """every clause of spec_wellformed except the start-time clause, on the reported output"""
+    ms = a['meas']
+    if not a.get('uids_consistent') or len({m['uid'] for m in ms}) != len(ms):
+        return False
+    if [tuple(it[1:]) for it in a['listing'] if it[0] == 1] != [(m['q'], m['tag'], m['uid']) for m in ms]:
+        return False
+    for i, m in enumerate(ms):
+        if m['att'] != 0 or m['ci'] != i or m['qi'] != sum(1 for x in ms[:i] if x['q'] == m['q']):
+            return False
+    if a.get('stim_m') != [m['q'] for m in ms] or a.get('stim_n') != len(ms):
+        return False
+    for q, l in a['by_qubit']:
+        if l != [m['qi'] for m in ms if m['q'] == q]:
+            return False
+    for q, t, l in a['by_tag']:
+        if l != [m['qi'] for m in ms if m['q'] == q and m['tag'] == t]:
+            return False
+    return True
+
+
+def placed_after(a):
+    """pos -> set of listed positions the operation at pos is (transitively) placed after by construction"""
+    up = a['up']
+    memo = {}
+
+    def anc(i):
+        if i not in memo:
+            memo[i] = set()
+            for j in up[i]:
+                memo[i].add(j)
+                memo[i] |= anc(j)
+        return memo[i]
+    return anc
+
+
+def inversions(a):
+    ms = a['meas']
+    return [(x, y) for x in ms for y in ms if x['q'] == y['q'] and x['start'] < y['start'] and not x['qi'] < y['qi']]
+
+
+def explained_by_inversion(a):
+    """the only failing clause is the start-time clause, and every pair listed against its start-time order consists of two measurements
+    neither of which is placed after the other by construction (a pair that IS so ordered and still inverted is a different failure)"""
+    if 'up' not in a or not indices_exact(a):
+        return False
+    inv = inversions(a)
+    if not inv:
+        return False
+    anc = placed_after(a)
+    return all(x['pos'] not in anc(y['pos']) and y['pos'] not in anc(x['pos']) for x, y in inv)
+
+
 def known_class(c, o):
     if 'error' in o or 'after' not in o or not wellformed(c) or is_lib(c):
         return None
     if alias_possible(c) and explained_by_alias(o):
         return KNOWN_ALIAS
+    if not has_rel(c['circ']) and explained_by_inversion(o['after']):
+        return KNOWN_INVERSION
     return None
 
 
